@@ -231,6 +231,57 @@ def job_routes(job, seed):
     return {'obligations': obs, 'candidates': cands, 'paths': npaths}
 
 
+def job_history(job, seed):
+    """Call history: a kernel called with one dtype/unit must not influence a later call with another
+    (module-level caches, memoised constants): second result = documented formula, dtype, rounding budget."""
+    kname, first, second = job
+    import numpy as np
+    from symex import core as C
+    from symex import loader
+    from symsc.units import parse_unit
+    from .symutil import fresh_run, si_value
+
+    loader.install_shim()
+    tof = loader.load('conversion.tof')
+    fresh_run()
+    kinds, oracle, outunit, data_arg = kin.KERNELS[kname]
+    n = len(kinds)
+    f = getattr(tof, kname)
+    kw1 = _mk_args(kname, [first] * n, 'rad', [0] * n)
+    kw2 = _mk_args(kname, [second] * n, 'rad', [0] * n)  # same atoms (same names/units), other dtype
+    paths = C.explore(lambda: (f(**kw1), f(**kw2)))
+    obs, cands = [], []
+    tag = f'history[{kname}: {first} then {second}]'
+    case = {'kind': 'history', 'kernel': kname, 'first': first, 'second': second}
+    p = paths[0]
+    if len(paths) != 1 or p.exc is not None or p.inconclusive:
+        obs.append({'name': f'{tag}:runs', 'status': 'inconclusive' if p.inconclusive else 'violated', 'detail': str(p.inconclusive or repr(p.exc))[:200], 't': 0})
+        if p.exc is not None:
+            cands.append((f'C01:history:{kname}', case, repr(p.exc)[:100]))
+        return {'obligations': obs, 'candidates': cands, 'paths': len(paths)}
+    r1, r2 = p.value
+    o = _ops()
+    with C.oracle():
+        expect = oracle(o, **{a: si_value(v) for a, v in kw2.items()})
+    ob = C.prove_zero(f'{tag}:second call = documented formula', si_value(r2) - expect)
+    obs.append(ob_dict(ob))
+    bad = ob.status == 'violated'
+    exp_dt = 'float32' if second == 'float32' else 'float64'
+    ob = C.prove(f'{tag}:second call dtype {exp_dt}', C.B.const(r2.dtype.name == exp_dt))
+    obs.append(ob_dict(ob))
+    bad = bad or ob.status != 'discharged'
+    n64, n32 = r2._rnd
+    budget = C.R.lift(n64 * 2 * Fraction(1, 2**53) + n32 * 2 * Fraction(1, 2**24))
+    bound = Fraction(1, 10**5) if second == 'float32' else Fraction(1, 10**11)
+    eps = C.sym_var('relerr')
+    ob = C.prove(f'{tag}:second call keeps its accuracy (rounding operations n64={n64}, n32={n32})', eps < bound, assumptions=[eps >= 0, eps <= budget * (1 + budget)])
+    obs.append(ob_dict(ob))
+    bad = bad or ob.status != 'discharged'
+    if bad:
+        cands.append((f'C01:history:{kname}', case, 'a later call depends on an earlier call with another dtype'))
+    return {'obligations': obs, 'candidates': cands, 'paths': 1}
+
+
 def job_canary(job, seed):
     """Vacuity guard: a perturbed implementation term must be refuted (sat)."""
     kname = job
@@ -282,6 +333,8 @@ def run(chk):
         rjobs += [('float32', 'float32'), ('int64', 'float64'), ('float64', 'float32')]
     run_jobs(chk, job_routes, rjobs)
     run_jobs(chk, job_canary, list(kin.KERNELS))
+    hist = [(k, a, b) for k in kin.KERNELS for a, b in (('float32', 'float64'), ('float64', 'float32'), ('int64', 'float64'))]
+    run_jobs(chk, job_history, hist)
     chk.bounds = {'array_len': 2, 'shapes': 'scalar, 1-d x 1-d (outer), 2-d x 1-d', 'dtypes': 'data {f64,f32,i64} x other {f64,f32}',
                   'values': 'positive reals (any), unit scale factors symbolic positive reals, theta in (0, pi/2] via sin(theta)>0'}
     chk.stubs = ['scipp -> symsc (Variable arithmetic, units, dtype promotion, to_unit, astype, sin, sqrt)']
@@ -378,6 +431,13 @@ def replay_real(case):
         return bad
 
     kind = case['kind']
+    if kind == 'history':
+        kname = case['kernel']
+        n = len(kin.KERNELS[kname][0])
+        # fresh process: the first call really is the first
+        b1 = one_kernel(kname, [case['first']] * n)
+        b2 = one_kernel(kname, [case['second']] * n)
+        return {'reproduced': bool(b2), 'detail': '; '.join(f'after a {case["first"]} call: {b}' for b in b2[:3])}
     if kind == 'kernel':
         bad = one_kernel(case['kernel'], case['dtypes'])
         return {'reproduced': bool(bad), 'detail': '; '.join(bad[:3])}
